@@ -477,6 +477,10 @@ LOAD_POOL = [
     {"file": {"proxy": "http://p:1"}, "env": {"quiet": "true"}, "cli": ["--verbose"]},
     {"cli": ["--output-dir", os.path.join(_TMP, "o4-out")]},
     {"cli": ["--keep-archive", "--net-debug"]},
+    # configuration files of the same size as an earlier one (a file rewritten in place: one digit / one word changed)
+    {"file": {"retries": "3", "no_upload": "true"}},
+    {"file": {"offline": "no"}},
+    {"file": {"offline": "on"}},
 ]
 
 
